@@ -48,6 +48,7 @@ def run(facts, rep, tier):
     filt(F, rep, f)
     stopreported(F, rep, f)
     status(F, rep)
+    flagwiring(F, rep)
 
 
 def root_local(f, l, depth=10):
@@ -526,3 +527,50 @@ def status(F, rep):
         rep.add(Finding("STATUS", "STATUS|run_single_test|cargo-test",
                         "run_single_test no longer invokes `cargo test` on the generated harness", file=f.file,
                         line=f.line, fn=f.path))
+
+
+# parameter of run_tests -> field of `Command::Test` that carries it (one line per flag)
+FLAG_WIRING = {
+    "verbose": "verbose",               # -v
+    "stop_on_fail": "stop_on_fail",     # -x / --exitfirst: what STOP examines
+    "include_slow": "slow",             # --slow: what SKIP examines
+    "fail_on_empty": "fail_on_empty",   # --fail-on-empty: what EXIT examines
+}
+
+
+def flagwiring(F, rep):
+    """FLAGWIRING - the flags the runner's rules reason about (`stop_on_fail`, `include_slow`, `fail_on_empty`,
+    `verbose`) are the command line's: at the call of run_tests each of these parameters receives the field of
+    `Command::Test` that the option parser fills for it. Four booleans in a row type-check in any order."""
+    from engines import trace_local_source
+    f = F.one_fn("cli::execute")
+    g = F.one_fn("test_runner::run_tests")
+    if not rep.anchor("FLAGWIRING", "cli::execute", f) or not rep.anchor("FLAGWIRING", "run_tests", g):
+        return
+    calls = [(bi, t) for bi, t in f.calls() if (callee_name(t) or "").endswith("test_runner::run_tests")]
+    if not rep.anchor("FLAGWIRING", "call of run_tests in execute", calls):
+        return
+    rep.functions.add(f.path)
+    params = [g.name_of(i) for i in range(1, g.argc + 1)]
+    n = 0
+    for bi, t in calls:
+        for i, o in enumerate(t["args"]):
+            if i >= len(params) or params[i] not in FLAG_WIRING:
+                continue
+            n += 1
+            pl = op_place(o)
+            src = trace_local_source(f, pl["l"]) if pl is not None else None
+            got = None
+            if src and src[0] == "place":
+                flds = [e[3] for e in src[1]["p"] if e[0] == "f" and e[1].endswith("cli::Command")]
+                got = flds[-1] if flds else None
+            want = FLAG_WIRING[params[i]]
+            ok = got == want
+            rep.oblige("FLAGWIRING", "run_tests:%s" % params[i], ok,
+                       sample={"rule": "FLAGWIRING", "parameter": params[i], "receives": got, "expected": want})
+            if not ok:
+                rep.add(Finding("FLAGWIRING", "FLAGWIRING|run_tests|%s" % params[i],
+                                "run_tests' parameter `%s` receives the command-line field `%s` instead of `%s`: the "
+                                "option the user passed controls a different behaviour of the runner"
+                                % (params[i], got, want), file=f.file, line=t.get("ln"), fn=f.path))
+    rep.floor("FLAGWIRING", "flag parameters of run_tests wired in execute", n, 4)
